@@ -93,6 +93,8 @@ impl Method for SWMA {
 	#[inline]
 	fn next(&mut self, &value: &Self::Input) -> Self::Output {
 		if self.right_window.is_empty() {
+			// length 1: the only weight is 1; keep `peek` in step with the value returned
+			self.numerator = value;
 			return value;
 		}
 
